@@ -19,7 +19,7 @@ MANIFEST = dict(
          "stuck); multiline_flag_irrelevant. D8 (byte count of an early-ended reader search) is proved to be the only difference "
          "(n <= reference count; witness early_end_byte_count_witness) and is a known finding. Tie to the code on every run: "
          "model = code on the real roll buffer fed through a hook with scripted read histories (capacities 1..65, both growth "
-         "policies, sink stops), sequences of searches by one real Searcher (kind 206) = model = fresh Searcher, reader events = slice events = reference, the public search_reader, rg --mmap/--no-mmap/stdin. "
+         "policies, sink stops), sequences of searches by one real Searcher (kind 206) = model = fresh Searcher, reader events = slice events = reference, the public search_reader, rg --mmap/--no-mmap/stdin (also --null-data with context over files > 64 KiB whose records contain line feeds, against a grep reference); a quarter of the cases stress the terminator (NUL, ';', 0xFF, ... with line feeds inside the records). "
          "ml_fill_never_truncates / ml_fill_reads_everything (Model/MultiLineBuffer.v: fill_multi_line_buffer_from_reader/_from_file — for every "
          "stream, read history with short reads / Interrupted / hard errors, heap limit and earlier buffer the multi-line heap buffer ends up "
          "equal to the whole stream, or the heap-limit error is returned exactly when a limit h is set and the stream has at least h bytes, "
@@ -73,8 +73,9 @@ def run(ctx):
     cases, rlines, slines, meta = [], [], [], []
     reg = [c for c in sg.regress_cases() for _ in range(3)]
     for i in range(n + len(reg)):
-        c = reg[i] if i < len(reg) else sg.gen_case(rng)
-        cap = rng.choice([1, 1, 2, 3, 4, 5, 7, 8, 13, 16, 40, 64, 65])
+        # every fourth generated case: terminator stress (NUL, ';', 0xFF, ... with `\n` / `\r` inside the records, context)
+        c = reg[i] if i < len(reg) else (sg.gen_term_case(rng, stop_ok=True) if i % 4 == 3 else sg.gen_case(rng))
+        cap = rng.choice([1, 1, 2, 3, 4, 5, 7, 8, 13, 16, 40, 64, 65]) if i % 8 != 3 else rng.randint(1, 8)
         pol = None if rng.random() < 0.8 else rng.choice([0, 1, 2, 4, 8, 30])
         hist = gen_hist(rng, len(c["input"]), cap)
         reply = None
@@ -147,6 +148,11 @@ def run(ctx):
                 ctx.known(KNOWN_D8, "case=%r reader finish=%r slice finish=%r" % (sg.describe(case), rfin, sfin))
     ctx.sample(dict(case=sg.describe(cases[0]), cap=meta[0][0], hist=meta[0][2][:8], reader=rc[0], slice=sc[0]))
     ctx.cov["stats"] = stats
+    terms = {}
+    for case, mt in zip(cases, meta):
+        k = sg.term_name(case["cfg"]) + ("/rolled" if len(case["input"]) > mt[0] else "")
+        terms[k] = terms.get(k, 0) + 1
+    ctx.cov["features"] = terms
     ctx.cov["rule"] = ("searcher case x buffer capacity 1..65 x growth policy (eager / Error(extra)) x read history "
                        "(default, 1-byte, constant, random) x optional sink stop; non-trivial = input longer than the "
                        "buffer capacity (forces rolling/growth)")
@@ -485,6 +491,104 @@ def cli(ctx):
             ctx.violation("a procfs file with content is not searched when named by path",
                           dict(kind="cli-procfs", file=pf, pattern=pat, outs=[repr(o) for o in outs]))
     ctx.cov["cli_runs"] = runs
+    cli_null_data(ctx, "C02")
+
+
+def grep_records(data, term, selected, after, before, passthru):
+    """what grep prints for terminator-separated records (-n -b, context -A/-B, --passthru), written from the grep
+    documentation: selected records as `n:offset:record`, the `after` records following and the `before` records
+    preceding a selected one (or every record under passthru) as `n-offset-record`, in input order, each once; when
+    context was asked for, a `--` record between two printed records that are not adjacent in the input; numbers are
+    1-based, offsets 0-based."""
+    recs, off = [], 0
+    while off < len(data):
+        j = data.find(term, off)
+        end = len(data) if j < 0 else j + 1
+        recs.append((off, data[off:end]))
+        off = end
+    sel = [selected(r[:-1] if r.endswith(term) else r) for _, r in recs]
+    out, last = [], None
+    for i, (o, r) in enumerate(recs):
+        if sel[i]:
+            k = b":"
+        elif passthru or any(sel[max(0, i - after):i]) or any(sel[i + 1:i + 1 + before]):
+            k = b"-"
+        else:
+            continue
+        if last is not None and i > last + 1 and (after > 0 or before > 0):
+            out.append(b"--" + term)
+        out.append(b"%d%s%d%s" % (i + 1, k, o, k) + r + (b"" if r.endswith(term) else term))
+        last = i
+    return b"".join(out)
+
+
+def cli_null_data(ctx, pid):
+    """rg --null-data with context over files larger than the 64 KiB buffers whose NUL-terminated records contain line
+    feeds and carriage returns: --mmap (slice strategy), --no-mmap and stdin (incremental reader) must print the same,
+    and what they print must be the grep reference over the records"""
+    import os
+    import subprocess
+    rng = ctx.rng
+    runs = 0
+    words = [b"hay", b"payload", b"x", b"", b"a b", b"rec"]
+    for i in range(ctx.count(3)):
+        dens = [3, 5, 8, 40][i % 4] if i < 4 else rng.choice([3, 5, 8, 40])
+        parts = []
+        size = 0
+        target = rng.randint(70000, 200000)
+        k = 0
+        while size < target:
+            k += 1
+            sub = [rng.choice(words) + b"x" * rng.randint(0, 30) for _ in range(rng.choice([1, 2, 3, 3, 4]))]
+            if rng.randrange(dens) == 0:
+                sub[rng.randrange(len(sub))] += b" needle"
+            rec = rng.choice([b"\n", b"\n", b"\r\n"]).join(sub) + (b"\n" if rng.random() < 0.3 else b"") + b"\0"
+            parts.append(rec)
+            size += len(rec)
+        data = b"".join(parts)
+        if rng.random() < 0.3:
+            data = data[:-1]                    # last record without terminator
+        f = os.path.join(vlib.CACHE, "%s_nul_%d_%d" % (pid.lower(), os.getpid(), i))
+        open(f, "wb").write(data)
+        try:
+            flagsets = [(1, 1, False), (0, 2, False), (2, 0, False)] if i == 0 else []
+            while len(flagsets) < 4:
+                flagsets.append((rng.randint(0, 3), rng.randint(0, 3), rng.random() < 0.15))
+            for a, b, passthru in flagsets:
+                invert = rng.random() < 0.3
+                if passthru:
+                    flags = ["--passthru"]
+                elif a == b and a > 0 and rng.random() < 0.5:
+                    flags = ["-C", str(a)]
+                else:
+                    flags = ["-A", str(a), "-B", str(b)]
+                if invert:
+                    flags.append("-v")
+                base = [vlib.RG, "--no-config", "--color", "never", "--no-heading", "-I", "--null-data", "-n", "-b"] + flags + ["-e", "needle"]
+                outs = []
+                for mode in ("--mmap", "--no-mmap"):
+                    p = subprocess.run(base + [mode, f], stdin=subprocess.DEVNULL, stdout=subprocess.PIPE, stderr=subprocess.PIPE)
+                    outs.append((p.returncode, p.stdout))
+                p = subprocess.run(base + ["-"], stdin=open(f, "rb"), stdout=subprocess.PIPE, stderr=subprocess.PIPE)
+                outs.append((p.returncode, p.stdout))
+                runs += 3
+                exp = grep_records(data, b"\0", lambda r: (b"needle" in r) != invert, 0 if passthru else a, 0 if passthru else b, passthru)
+                ctx.note_case("nul%d%r" % (i, flags), True)
+
+                def first_diff(x, y):
+                    n = next((j for j in range(min(len(x), len(y))) if x[j] != y[j]), min(len(x), len(y)))
+                    lo = max(0, n - 120)
+                    return dict(at=n, got=repr(x[lo:n + 120]), expected=repr(y[lo:n + 120]))
+                names = ("--mmap", "--no-mmap", "stdin")
+                for name, (rc, o) in zip(names, outs):
+                    if o != exp or rc != (0 if exp else 1):
+                        ctx.violation("rg --null-data %s (%s) over a %d-byte file of NUL-terminated records with embedded line feeds "
+                                      "does not print the grep reference" % (" ".join(flags), name, len(data)),
+                                      dict(kind="cli-null-data", flags=flags, strategy=name, exit=rc, size=len(data), gen=dict(file=i, seed=ctx.seed),
+                                           same_as_mmap=(o == outs[0][1]), diff=first_diff(o, exp)))
+        finally:
+            os.remove(f)
+    ctx.cov["cli_null_data_runs"] = ctx.cov.get("cli_null_data_runs", 0) + runs
 
 
 def replay(ctx, data):
